@@ -81,8 +81,8 @@ InstModel(d) ==
                   [r \in 1..n |-> Pick(Pal, ds[4 + NRxns + r])], c,
                   IF ds[4 + 2 * NRxns + 1] % 5 = 0 THEN "min" ELSE "max")
 \* further draws for the argument choices of an instance
-ArgDraws(d) == IF Mode = "full" THEN Draws(LCG(d.oc * 97 + d.bd[1] * 13 + d.sh[1] + d.sh[NRxns] * 7), 24)
-               ELSE Draws(LCG(d.rng + 12345), 24)
+ArgDraws(d) == IF Mode = "full" THEN Draws(LCG(d.oc * 97 + d.bd[1] * 13 + d.sh[1] + d.sh[NRxns] * 7), 40)
+               ELSE Draws(LCG(d.rng + 12345), 40)
 
 \* ---------------------------------------------------------------- C09: calls
 \* a reference solution of the model before knock-out: the optimal lattice point that is extreme
@@ -146,7 +146,133 @@ BuildC09(d) ==
            adj == IF AllFinite(M) THEN ConcatAll([i \in 1..Len(feas) |-> AdjustCalls(M, kos[feas[i]], A, ds, i)]) ELSE <<>>
        IN [skip |-> FALSE, M |-> M, calls |-> pf \o adj]
 
+\* ---------------------------------------------------------------- C06: rules, lists, calls
+G(x) == <<"g", x>>
+RuleU == << <<"none">>, G("g1"), G("g2"), G("g3"), <<"and", G("g1"), G("g2")>>, <<"or", G("g1"), G("g2")>>,
+            <<"or", <<"and", G("g1"), G("g2")>>, G("g3")>>, <<"and", G("g1"), <<"or", G("g2"), G("g3")>>>>,
+            <<"and", <<"or", G("g1"), G("g2")>>, G("g3")>>, <<"or", G("g2"), G("g3")>>, G("g1") >>
+GeneNames == <<"g1", "g2", "g3">>
+WithRules(M, ds, k) ==
+  LET rules == [r \in RIdx(M) |-> Pick(RuleU, ds[k + r])]
+      used == UNION {RuleGenes(rules[r]) : r \in RIdx(M)} IN
+  [rxns |-> M.rxns, mets |-> M.mets, S |-> M.S, lb |-> M.lb, ub |-> M.ub, c |-> M.c, dir |-> M.dir,
+   rules |-> rules, ruletext |-> [r \in RIdx(M) |-> RuleText(rules[r])],
+   genes |-> SelectSeq(GeneNames, LAMBDA g : g \in used)]
+
+\* a drawn list of positions in 1..n (length 1..3, repeats allowed)
+DrawList(n, ds, k) == [i \in 1..((ds[k] % 3) + 1) |-> (ds[k + i] % n) + 1]
+
+NoDel == [k |-> "none", method |-> "fba", l1 |-> <<>>, l1given |-> FALSE, l2 |-> <<>>, l2given |-> FALSE,
+          byobj |-> FALSE, ref |-> <<>>, refgiven |-> FALSE, refobj |-> 0, tdefault |-> TRUE, tnum |-> 0, tden |-> 1]
+BuildC06(d) ==
+  LET M0 == InstModel(d) ds == ArgDraws(d) F0 == Feasible(M0) IN
+  IF ~(IsUnitNetwork(M0) /\ (Mode = "rand" \/ (HasOptF(F0, M0) /\ Interesting(F0, M0)))) THEN [skip |-> TRUE]
+  ELSE
+  LET M == WithRules(M0, ds, 0)
+      n == NR(M) ng == Len(M.genes)
+      h == HasOptF(F0, M)
+      ref == IF h THEN RefFor(ArgOptF(F0, M), Weights(n, ds, 6)) ELSE ZeroVec(M)
+      ro == Dot(M.c, ref)
+      base == [NoDel EXCEPT !.ref = ZeroVec(M)]
+      del(k, a, ag, b, bg, ob) == [base EXCEPT !.k = k, !.l1 = a, !.l1given = ag, !.l2 = b, !.l2given = bg, !.byobj = ob]
+      moma(c) == [c EXCEPT !.method = "lmoma", !.ref = ref, !.refgiven = TRUE, !.refobj = ro]
+      rl1 == DrawList(n, ds, 12) rl2 == DrawList(n, ds, 16)
+      gl1 == IF ng > 0 THEN DrawList(ng, ds, 24) ELSE <<>>
+      gl2 == IF ng > 0 THEN DrawList(ng, ds, 28) ELSE <<>>
+      fba == <<del("srd", <<>>, FALSE, <<>>, FALSE, FALSE), del("srd", rl1, TRUE, <<>>, FALSE, ds[20] % 2 = 0),
+               del("drd", rl1, TRUE, rl2, TRUE, ds[21] % 2 = 0), del("drd", rl2, TRUE, <<>>, FALSE, ds[22] % 2 = 0)>>
+             \o (IF ng = 0 THEN <<>> ELSE
+                 <<del("sgd", <<>>, FALSE, <<>>, FALSE, FALSE), del("sgd", gl1, TRUE, <<>>, FALSE, ds[20] % 2 = 1),
+                   del("dgd", <<>>, FALSE, <<>>, FALSE, FALSE), del("dgd", gl1, TRUE, gl2, TRUE, ds[21] % 2 = 1)>>)
+      unique == h /\ AllFinite(M) /\ Cardinality(PfbaPoints(F0, M)) = 1
+      lm == IF ~(h /\ AllFinite(M)) THEN <<>> ELSE
+            <<moma(fba[1]), moma(fba[3])>> \o (IF ng = 0 THEN <<>> ELSE <<moma(fba[5]), moma(fba[8])>>)
+            \o (IF unique THEN <<[fba[1] EXCEPT !.method = "lmoma"]>> ELSE <<>>)
+      half == 2 * ((ds[33] % 5) - 1) + 1                       \* threshold half / 2 with odd half in -1..7
+      ess == IF ~h THEN <<>> ELSE
+             <<[base EXCEPT !.k = "ess_r"], [base EXCEPT !.k = "ess_r", !.tdefault = FALSE, !.tnum = half, !.tden = 2]>>
+             \o (IF ng = 0 THEN <<>> ELSE
+                 <<[base EXCEPT !.k = "ess_g"], [base EXCEPT !.k = "ess_g", !.tdefault = FALSE, !.tnum = half, !.tden = 2]>>)
+  IN [skip |-> FALSE, M |-> M, calls |-> fba \o lm \o ess]
+
+\* ---------------------------------------------------------------- C18: media
+CompOf(nm) == [m \in 1..nm |-> IF m < nm \/ nm = 1 THEN "e" ELSE "c"]       \* the last metabolite is internal
+WithComp(M) == [rxns |-> M.rxns, mets |-> M.mets, S |-> M.S, lb |-> M.lb, ub |-> M.ub, c |-> M.c, dir |-> M.dir,
+                comp |-> CompOf(NM(M))]
+DrawMedium(M, ds, k) ==
+  [r \in RIdx(M) |-> IF r \in Exchanges(M) /\ ds[k + r] % 3 # 0 THEN (ds[k + r] \div 3) % 4 ELSE Absent]
+NoMed == [k |-> "none", d |-> <<>>, g |-> 0, exports |-> FALSE, mc |-> 0, open |-> 0, opentrue |-> FALSE]
+BuildC18(d) ==
+  LET M0 == InstModel(d) ds == ArgDraws(d) M == WithComp(M0) F == Feasible(M) IN
+  IF ~(IsUnitNetwork(M) /\ Exchanges(M) # {} /\ (Mode = "rand" \/ (HasOptF(F, M) /\ Interesting(F, M))))
+  THEN [skip |-> TRUE]
+  ELSE
+  LET base == [NoMed EXCEPT !.d = [r \in RIdx(M) |-> Absent]]
+      setm(x) == [base EXCEPT !.k = "setmed", !.d = x]
+      meds == IF ExportSideOK(M)
+              THEN <<[base EXCEPT !.k = "getmed"], setm(DrawMedium(M, ds, 0)), setm(DrawMedium(M, ds, 6)),
+                     [base EXCEPT !.k = "setcur"], setm(DrawMedium(M, ds, 12)), setm(base.d)>>
+              ELSE <<[base EXCEPT !.k = "getmed"]>>
+      mm(g, ex, mc, op) == [base EXCEPT !.k = "minmed", !.g = g, !.exports = ex, !.mc = mc, !.open = op]
+      top == IF F # {} /\ ~UnboundedF(F, WithObjective(M, M.c, "max")) THEN OptIn(F, M.c, "max") ELSE 2
+      k == 2 + (ds[20] % 2)
+      fin == \A r \in Exchanges(M) : FinLB(M, r) /\ FinUB(M, r)
+      mins == <<mm(1, FALSE, 0, 0), mm(top, FALSE, 0, 0), mm(top + 1, FALSE, 0, 0), mm(1, TRUE, 0, 0),
+                mm(1 + (ds[21] % 2), FALSE, 0, k), mm(top, TRUE, 0, k),
+                [mm(1, FALSE, 0, 0) EXCEPT !.opentrue = TRUE]>>
+              \o (IF fin \/ Mode = "rand"          \* infinite exchange bounds + components: F33 (drawn instances only)
+                  THEN <<mm(1, FALSE, 1, 0), mm(1, FALSE, 2, 0), mm(top, FALSE, 3, 0), mm(top + 1, FALSE, 1, 0),
+                         mm(1, TRUE, 2, 0)>> ELSE <<>>)
+              \o <<mm(1, FALSE, 1, k), mm(top, FALSE, 2, k)>>
+  IN [skip |-> FALSE, M |-> M, calls |-> meds \o mins]
+
+\* ---------------------------------------------------------------- C20: summaries
+\* boundary coefficients scaled by +-1, +-2 (the solution stays a steady state of the scaled model when the
+\* boundary flux is divided accordingly, so only even boundary fluxes are scaled)
+ScaleBoundary(M, sol, ds, k) ==
+  LET f(r) == IF r \in Boundary(M) /\ sol[r] % 2 = 0 /\ ds[k + r] % 3 = 0 THEN 2 ELSE 1 IN
+  [M |-> [M EXCEPT !.S = [r \in RIdx(M) |-> [m \in MIdx(M) |-> M.S[r][m] * f(r)]],
+                   !.lb = [r \in RIdx(M) |-> IF f(r) = 2 /\ FinLB(M, r) THEN (M.lb[r] - 1) \div 2 ELSE M.lb[r]],
+                   !.ub = [r \in RIdx(M) |-> IF f(r) = 2 /\ FinUB(M, r) THEN (M.ub[r] + 1) \div 2 ELSE M.ub[r]]],
+   sol |-> [r \in RIdx(M) |-> sol[r] \div f(r)]]
+NoSum == [k |-> "none", idx |-> 0, solgiven |-> TRUE, sol |-> <<>>, fvak |-> "none", fnum |-> 1, fden |-> 1,
+          frame |-> <<>>, scaled |-> FALSE]
+DrawFrame(M, sol, ds, k) ==
+  [r \in RIdx(M) |-> <<sol[r] - (ds[k + r] % 3), sol[r] + ((ds[k + r] \div 3) % 3)>>]
+BuildC20(d) ==
+  LET M == InstModel(d) ds == ArgDraws(d) F == Feasible(M) IN
+  IF ~(IsUnitNetwork(M) /\ HasOptF(F, M) /\ Interesting(F, M) /\ AllFinite(M)) THEN [skip |-> TRUE]
+  ELSE
+  LET A == ArgOptF(F, M)
+      sol == RefFor(A, Weights(NR(M), ds, 0))
+      any == RefFor(F, Weights(NR(M), ds, 8))                 \* a feasible, not necessarily optimal solution
+      sc == ScaleBoundary(M, sol, ds, 16)
+      base == [NoSum EXCEPT !.sol = sol, !.frame = [r \in RIdx(M) |-> <<0, 0>>]]
+      fr == DrawFrame(M, sol, ds, 22)
+      variants(k, i) ==
+        <<[base EXCEPT !.k = k, !.idx = i],
+          [base EXCEPT !.k = k, !.idx = i, !.fvak = "frame", !.frame = fr],
+          [base EXCEPT !.k = k, !.idx = i, !.fvak = "float", !.fnum = 1, !.fden = 1 + (ds[30] % 2)],
+          [base EXCEPT !.k = k, !.idx = i, !.sol = any],
+          [base EXCEPT !.k = k, !.idx = i, !.solgiven = FALSE, !.sol = ZeroVec(M)]>>
+      used == SelectSeq([m \in MIdx(M) |-> m], LAMBDA m : \E r \in RIdx(M) : M.S[r][m] # 0)   \* metabolites of the model
+      two(k, i, o) == LET vs == variants(k, i) IN <<vs[((i + o) % 5) + 1], vs[((i + o + 2) % 5) + 1]>>
+      model == variants("model", 0)
+      mets == ConcatAll([q \in 1..Len(used) |-> two("met", used[q], ds[31] % 5)])
+      rxns == ConcatAll([r \in RIdx(M) |-> two("rxn", r, ds[32] % 5)])
+      scbase == [base EXCEPT !.sol = sc.sol, !.scaled = TRUE]
+      scfr == DrawFrame(sc.M, sc.sol, ds, 22)
+      scaled == IF sc.M = M THEN <<>>
+                ELSE <<[scbase EXCEPT !.k = "model"], [scbase EXCEPT !.k = "model", !.fvak = "frame", !.frame = scfr]>>
+                     \o ConcatAll([q \in 1..Len(used) |->
+                                     <<[scbase EXCEPT !.k = "met", !.idx = used[q], !.fvak = IF q % 2 = 0 THEN "none" ELSE "frame",
+                                                      !.frame = IF q % 2 = 0 THEN base.frame ELSE scfr]>>])
+  IN [skip |-> FALSE, M |-> M, MS |-> sc.M, calls |-> model \o mets \o rxns \o scaled]
+
 Build(d) == CASE Prop = "C09" -> BuildC09(d)
+              [] Prop = "C06" -> BuildC06(d)
+              [] Prop = "C18" -> BuildC18(d)
+              [] Prop = "C20" -> BuildC20(d)
               [] OTHER -> [skip |-> TRUE]
 
 \* ---------------------------------------------------------------- behaviour
@@ -168,7 +294,9 @@ Next ==
 
 Spec == Init /\ [][Next]_vars
 
-Constr == (Emit /\ phase = 1 /\ ~out.skip) => PrintT(ToJson([M |-> out.M, calls |-> out.calls]))
+Constr == (Emit /\ phase = 1 /\ ~out.skip) =>
+             PrintT(ToJson(IF Prop = "C20" THEN [M |-> out.M, MS |-> out.MS, calls |-> out.calls]
+                           ELSE [M |-> out.M, calls |-> out.calls]))
 
 \* ---------------------------------------------------------------- design theorems (C09)
 Built == phase = 1 /\ ~out.skip
@@ -220,4 +348,72 @@ ThmRefsInScope ==
   Built => LET A == ArgOpt(out.M) o == Opt(out.M) IN
            \A j \in CallsOf({"moma", "room", "linroom", "roomdef"}) :
               LET cl == out.calls[j] IN cl.refgiven => cl.ref \in A /\ cl.refobj = o /\ ~Infeasible(KOof(cl.ko))
+
+\* ---------------------------------------------------------------- design theorems (C06)
+\* knocking the genes out one after the other (Gene.knock_out) disables exactly the reactions whose
+\* rule is false for the whole set, in any order (all orders of all subsets of the genes)
+Perms(S) == {p \in [1..Cardinality(S) -> S] : \A i, j \in 1..Cardinality(S) : i # j => p[i] # p[j]}
+ThmGeneKOProtocol ==
+  Built => \A K \in SUBSET SeqSet(out.M.genes) : \A p \in Perms(K) : SeqGeneKO(out.M, p, {}, {}) = GeneKO(out.M, K)
+\* and / or are what they say: a rule is monotone in the set of functional genes; `and` needs both
+ThmRuleEval ==
+  Built => \A r \in RIdx(out.M) : LET t == out.M.rules[r] IN
+     /\ \A K1 \in SUBSET RuleGenes(t) : \A K2 \in SUBSET K1 : EvalRule(t, K1) => EvalRule(t, K2)
+     /\ (t[1] # "none") => ~EvalRule(t, RuleGenes(t))
+     /\ (t[1] = "and") => \A g \in RuleGenes(t[2]) \cup RuleGenes(t[3]) :
+                             (RuleGenes(t[2]) = {g} \/ RuleGenes(t[3]) = {g}) => ~EvalRule(t, {g})
+\* a double deletion over a duplicate-free list with itself has n (n + 1) / 2 rows (the diagonal stays)
+ThmCombinations ==
+  Built => \A j \in 1..Len(out.calls) : LET cl == out.calls[j] IN
+     (cl.k \in {"drd", "dgd"}) =>
+        LET La == IF cl.l1given THEN cl.l1 ELSE [i \in 1..Cardinality(Universe(out.M, IF cl.k = "drd" THEN "reaction" ELSE "gene")) |-> i]
+            Lb == IF cl.l2given THEN cl.l2 ELSE La
+            C == Combinations(La, Lb) n == Cardinality(SeqSet(La)) IN
+        /\ Singles(La) \cap Singles(Lb) \subseteq C
+        /\ \A x \in SeqSet(La), y \in SeqSet(Lb) : {x, y} \in C
+        /\ (SeqSet(La) = SeqSet(Lb)) => 2 * Cardinality(C) = n * (n + 1)
+\* essential sets grow with the threshold; knocking out more never helps a maximised objective when
+\* every bound interval contains 0
+ThmEssential ==
+  Built => \A e \in {"reaction", "gene"} :
+     /\ Essential(out.M, e, 1, 2) \subseteq Essential(out.M, e, 3, 2)
+     /\ (InScope_C19(out.M) /\ out.M.dir = "max" /\ HasOpt(out.M)) =>
+           \A x \in Universe(out.M, e) : LET r == RowExpect(out.M, e, {x}) IN r.hasopt => r.opt <= Opt(out.M)
+
+\* ---------------------------------------------------------------- design theorems (C18)
+\* get and set are inverse on the documented domain; export bounds and other reactions are untouched
+ThmMediumInverse ==
+  Built => \A j \in 1..Len(out.calls) : LET cl == out.calls[j] M == out.M IN
+     (cl.k = "setmed" /\ InScope_setmedium(M, cl.d)) =>
+        LET P == SetMedium(M, cl.d) IN
+        /\ GetMedium(P) = PositivePart(M, cl.d)
+        /\ SetMedium(M, GetMedium(M)) = M
+        /\ SetMedium(P, GetMedium(P)) = SetMedium(P, cl.d)
+        /\ \A r \in RIdx(M) : IF r \notin Exchanges(M) THEN P.lb[r] = M.lb[r] /\ P.ub[r] = M.ub[r]
+                              ELSE IF ExportWritten(M, r) THEN P.ub[r] = M.ub[r] ELSE P.lb[r] = M.lb[r]
+        /\ \A r \in Exchanges(M) : cl.d[r] = Absent => ImportBound(P, r) <= 0
+\* relations between the two notions of minimality, on every minimal-medium call
+ThmMinMedium ==
+  Built => \A j \in 1..Len(out.calls) : LET cl == out.calls[j] IN
+     (cl.k = "minmed" /\ ~cl.opentrue) =>
+        LET M == Opened(out.M, cl.open) F == Feasible(M) Rch == Reaching(F, M, cl.g) IN
+        (Rch # {}) =>
+          /\ (MinComponentsIn(Rch, M) = 0) = (MinMediumIn(Rch, M) = 0)
+          /\ MinComponentsIn(Rch, M) <= MinMediumIn(Rch, M)
+          /\ \A v \in Rch : TotalImport(M, v) = MinMediumIn(Rch, M) => MinComponentsIn(Rch, M) <= Cardinality(Components(M, v))
+          /\ \A g2 \in 0..cl.g : MinMediumIn(Reaching(F, M, g2), M) <= MinMediumIn(Rch, M)
+
+\* ---------------------------------------------------------------- design theorems (C20)
+\* every boundary reaction / reaction of the metabolite on exactly one side; a steady-state solution
+\* balances every metabolite; scaling commutes with the min/max swap
+ThmSummary ==
+  Built => \A j \in 1..Len(out.calls) : LET cl == out.calls[j] M == IF cl.scaled THEN out.MS ELSE out.M IN
+     (cl.solgiven /\ cl.k \in {"model", "met"}) =>
+        LET rng == IF cl.fvak = "frame" THEN cl.frame ELSE <<>>
+            rows == IF cl.k = "model" THEN ModelRows(M, cl.sol, rng) ELSE MetRows(M, cl.sol, rng, cl.idx)
+            plus == {x \in rows : OnPlusSide(x)} minus == rows \ plus IN
+        /\ Balanced(M, cl.sol)
+        /\ (cl.k = "met") => SumFlux(plus) = SumFlux(minus)
+        /\ \A x \in rows : x.lo <= x.hi /\ (cl.fvak = "frame" => (x.lo <= x.flux /\ x.flux <= x.hi))
+        /\ \A x \in minus : x.flux < 0 \/ (x.flux = 0 /\ x.factor < 0)
 =============================================================================
